@@ -577,7 +577,7 @@ def r_guard(prog, tier):
         for r in raises:
             facts = [x[0] for x in facts_at(cfg, r.id)]
             if any(d in facts for d in disc) and ('haskey', f.kwarg, 'brackets_skipdisco', False) in facts \
-                    and unparse(r.ast.exc).startswith('ValueError('):
+                    and prog.raises_kind(r.ast.exc, f, 'ValueError'):
                 ok = True
             elif any(_mentions_gap(fa) for fa in facts) or any('skipdisco' in str(fa) for fa in facts):
                 partial = True
@@ -586,6 +586,9 @@ def r_guard(prog, tier):
                                    else False)
         if not ok and raises and not partial:
             verdict = None
+        if verdict is False and [c_ for c_ in prog.raising_calls(f) if prog.callee(c_, f) not in (
+                ('treeanalysis', 'gap_degree'), ('treeoutput', 'write_brackets_subtree'))]:
+            verdict = None          # the refusal may sit in a helper
         obs.append(Ob('R-GUARD/BRACKETS', f.fq, 'a discontinuous tree is refused with ValueError unless brackets_skipdisco '
                       'is given', verdict, 'raise under gap degree > 0 and not skipdisco' if ok else
                       ('the function never raises: discontinuous trees are never refused' if verdict is False else
